@@ -28,12 +28,12 @@ VARIABLES tid, done
 
 ScOf(t) == [plugs |-> t.sc.plugs, tree |-> t.sc.tree, short |-> t.sc.short, dflt |-> t.sc.dflt, reqs |-> t.sc.reqs,
             rets |-> t.sc.rets, ca |-> t.sc.ca, kn |-> t.sc.kn, hn |-> t.sc.hn, params |-> t.sc.params, cookies |-> t.sc.cookies,
-            body |-> t.sc.body]
+            body |-> t.sc.body, sched |-> t.sc.sched]
 
 \* tuples of the observation arrive as JSON arrays = sequences: the shapes coincide with TransportCore's
 ObsOf(t) == [i \in DOMAIN t.obs |->
                [headers |-> t.obs[i].headers, query |-> t.obs[i].query, cookies |-> t.obs[i].cookies,
-                body |-> t.obs[i].body, refresh |-> t.obs[i].refresh, defaults |-> t.obs[i].defaults,
+                body |-> t.obs[i].body, path |-> t.obs[i].path, refresh |-> t.obs[i].refresh, defaults |-> t.obs[i].defaults,
                 err |-> t.obs[i].err]]
 
 Init == tid \in 1..Len(Traces) /\ done = FALSE
@@ -45,7 +45,7 @@ Judge ==
   /\ LET t     == Traces[tid]
          c     == Concrete(ScOf(t))
          o     == ObsOf(t)
-         model == ModelSession("as_is", c)
+         model == ModelOf("as_is", c)
          fails == SessionFailures(c, o)
      IN PrintT("VERDICT " \o ToJson([id    |-> t.id,
                                      wellformed |-> ScenarioOK(ScOf(t), 3, 3),
